@@ -4,7 +4,7 @@ package main
 //
 // The specification owns WHAT is compared (closed forms, identities, scales,
 // bounds); this file only interprets the leaves.  Rational constants and the
-// arithmetic operations are evaluated in 320-bit binary floating point
+// arithmetic operations are evaluated in 1280-bit binary floating point
 // (math/big), so that closed forms with cancellation (pi^2/6 - sum 1/k^2, the
 // half-integer Bessel closed forms at small x, ...) do not lose the accuracy
 // that the comparison is about.  The elementary functions exp, log, sin, cos
@@ -22,7 +22,7 @@ import (
 	"math/rand"
 )
 
-const prec = 320
+const prec = 1280
 
 const uF64 = 1.0 / (1 << 52) // 2^-52
 
@@ -48,10 +48,13 @@ func clsName(c int) string {
 	return "panic"
 }
 
-// V is a value with an absolute error bound.
+// V is a value with an error bound |true - F| <= Rel*|F| + Abs.  The bound is
+// kept in relative form because magnitudes far outside the float64 range occur
+// (sinh(10^6), x^a e^-x, ...); Abs carries what is left after a cancellation.
 type V struct {
 	F   *big.Float
-	E   float64
+	Rel float64
+	Abs float64
 	Cls int
 }
 
@@ -61,8 +64,54 @@ func bfF(x float64) *big.Float {
 }
 func bfI(i int64) *big.Float { return bf().SetInt64(i) }
 
-func fin(f *big.Float, e float64) V { return V{F: f, E: e, Cls: cFin} }
-func nonfin(c int) V               { return V{F: bf(), E: 0, Cls: c} }
+// relFloor covers the rounding of the 1280-bit arithmetic itself (2^-1280 per
+// operation); it only matters where a closed form cancels to below 1e-300 of its
+// addends (such cases are counted as "weak").
+const relFloor = 1e-300
+
+func fin(f *big.Float, rel, abs float64) V {
+	if rel < relFloor {
+		rel = relFloor
+	}
+	return V{F: f, Rel: rel, Abs: abs, Cls: cFin}
+}
+func exact(f *big.Float) V { return V{F: f, Cls: cFin} }
+func nonfin(c int) V      { return V{F: bf(), Cls: c} }
+
+// Err returns the absolute error bound as a big number.
+func (v V) Err() *big.Float {
+	e := bf().Abs(v.F)
+	e.Mul(e, bfF(v.Rel))
+	return e.Add(e, bfF(v.Abs))
+}
+
+// relTot is the total error relative to |F| (Inf if F = 0 and the error is not).
+func (v V) relTot() float64 {
+	if v.Abs == 0 {
+		return v.Rel
+	}
+	if v.F.Sign() == 0 {
+		return math.Inf(1)
+	}
+	q := bf().Quo(bfF(v.Abs), bf().Abs(v.F))
+	f, _ := q.Float64()
+	return v.Rel + f
+}
+
+// absTot is the total absolute error as a float64 (may overflow to +Inf).
+func (v V) absTot() float64 {
+	f, _ := v.Err().Float64()
+	return f
+}
+
+func ratio(a, b *big.Float) float64 {
+	if b.Sign() == 0 {
+		return math.Inf(1)
+	}
+	q := bf().Quo(bf().Abs(a), bf().Abs(b))
+	f, _ := q.Float64()
+	return f
+}
 
 func (v V) f64() float64 {
 	switch v.Cls {
@@ -381,9 +430,12 @@ func (env *Env) Eval(t *Node) V {
 	switch t.Tag {
 	case "q":
 		r := new(big.Rat).SetFrac64(t.N, t.D)
-		return fin(bf().SetRat(r), 0)
+		if bf().SetRat(r).IsInt() || t.D&(t.D-1) == 0 {
+			return exact(bf().SetRat(r))
+		}
+		return fin(bf().SetRat(r), 0, 0)
 	case "pi":
-		return fin(bf().Set(bigPi), 0)
+		return fin(bf().Set(bigPi), 0, 0)
 	case "ninf":
 		return nonfin(cNInf)
 	case "pinf":
@@ -391,11 +443,11 @@ func (env *Env) Eval(t *Node) V {
 	case "c":
 		switch t.Fn {
 		case "egamma":
-			return fin(bf().Set(bigEGamma), 1e-49)
+			return fin(bf().Set(bigEGamma), 2e-49, 0)
 		case "zeta3":
-			return fin(bf().Set(bigZeta3), 1e-49)
+			return fin(bf().Set(bigZeta3), 1e-49, 0)
 		case "catalan":
-			return fin(bf().Set(bigCatalan), 1e-49)
+			return fin(bf().Set(bigCatalan), 2e-49, 0)
 		case "nan":
 			return nonfin(cNaN)
 		}
@@ -404,7 +456,7 @@ func (env *Env) Eval(t *Node) V {
 		if t.I < 1 || t.I > len(env.X) {
 			return env.fail("unbound variable x%d", t.I)
 		}
-		return fin(bf().Set(env.X[t.I-1]), 0)
+		return exact(bf().Set(env.X[t.I-1]))
 	case "u":
 		return env.unary(t)
 	case "b":
@@ -446,7 +498,7 @@ func (env *Env) lib(t *Node) V {
 		out = nonfin(cNInf)
 	default:
 		call.Res, call.Cls = fstr(res), "finite"
-		out = fin(bfF(res), 0)
+		out = exact(bfF(res))
 	}
 	env.Calls = append(env.Calls, call)
 	return out
@@ -475,65 +527,68 @@ func (env *Env) unary(t *Node) V {
 	xa := absF(x)
 	switch t.Fn {
 	case "neg":
-		return fin(bf().Neg(x), a.E)
+		return V{F: bf().Neg(x), Rel: a.Rel, Abs: a.Abs, Cls: cFin}
 	case "abs":
-		return fin(bf().Abs(x), a.E)
+		return V{F: bf().Abs(x), Rel: a.Rel, Abs: a.Abs, Cls: cFin}
 	case "exp":
 		xf, _ := x.Float64()
 		if xf > expLimit {
 			return nonfin(cPInf)
 		}
 		if xf < -expLimit {
-			return fin(bf(), 0)
+			return exact(bf())
 		}
-		v := bigExp(x)
-		return fin(v, absF(v)*a.E*1.0000001)
+		return fin(bigExp(x), 1.0000001*a.absTot(), 0)
 	case "log":
 		if x.Sign() <= 0 {
 			return nonfin(cNaN)
 		}
-		if x.Cmp(bfI(1)) == 0 && a.E == 0 {
-			return fin(bf(), 0)
+		if x.Cmp(bfI(1)) == 0 && a.Rel == 0 && a.Abs == 0 {
+			return exact(bf())
 		}
 		v := bigLog(x)
-		if a.E >= xa {
-			return fin(v, math.Inf(1))
+		r := a.relTot()
+		if r >= 0.5 {
+			return fin(v, 0, math.Inf(1))
 		}
-		return fin(v, a.E/(xa-a.E))
+		// the arithmetic floor applies relative to log's own magnitude
+		return fin(v, 0, r/(1-r))
 	case "sqrt":
 		if x.Sign() < 0 {
 			return nonfin(cNaN)
 		}
 		v := bf().Sqrt(x)
-		va := absF(v)
-		if va == 0 {
-			return fin(v, math.Sqrt(a.E))
+		if x.Sign() == 0 {
+			return fin(v, 0, math.Sqrt(a.Abs))
 		}
-		return fin(v, a.E/(2*va)*1.0000001)
+		r := a.relTot()
+		if r >= 0.5 {
+			return fin(v, 0, math.Inf(1))
+		}
+		return fin(v, 0.5000001*r/(1-r), 0)
 	case "sin", "cos", "tan", "cot":
 		if xa > 1e6 {
 			return env.fail("trigonometric argument too large")
 		}
 		s, c := bigSinCos(x)
+		e := a.absTot()
 		switch t.Fn {
 		case "sin":
-			return fin(s, a.E)
+			return fin(s, 0, e)
 		case "cos":
-			return fin(c, a.E)
+			return fin(c, 0, e)
 		case "tan":
 			if c.Sign() == 0 {
 				return nonfin(cNaN)
 			}
-			v := bf().Quo(s, c)
 			ca := absF(c)
-			return fin(v, a.E/(ca*ca)*1.0000001)
+			return fin(bf().Quo(s, c), 0, e/(ca*ca)*1.0000001)
 		default:
 			if s.Sign() == 0 {
 				return nonfin(cNaN)
 			}
-			v := bf().Quo(c, s)
 			sa := absF(s)
-			return fin(v, a.E/(sa*sa)*1.0000001)
+			return fin(bf().Quo(c, s), 0, e/(sa*sa)*1.0000001)
 		}
 	case "sinh", "cosh":
 		xf, _ := x.Float64()
@@ -552,7 +607,11 @@ func (env *Env) unary(t *Node) V {
 		}
 		v.Quo(v, bfI(2))
 		d.Quo(d, bfI(2))
-		return fin(v, (absF(d)+absF(v))*a.E)
+		if v.Sign() == 0 {
+			return fin(v, 0, a.absTot())
+		}
+		// relative error |f'/f| * (error of the argument)
+		return fin(v, (ratio(d, v)+1)*a.absTot(), 0)
 	case "erf", "erfc":
 		// float64 evaluation with a first-order correction for the rounding of the argument
 		x0, _ := x.Float64()
@@ -563,7 +622,7 @@ func (env *Env) unary(t *Node) V {
 		} else {
 			f0 = math.Erfc(x0)
 		}
-		if f0 == 0 && t.Fn == "erfc" {
+		if t.Fn == "erfc" && math.Abs(f0) < 1e-300 {
 			return env.fail("erfc underflows at %g: the specification must use the asymptotic form there", x0)
 		}
 		d := 2 / math.Sqrt(math.Pi) * math.Exp(-x0*x0)
@@ -573,11 +632,8 @@ func (env *Env) unary(t *Node) V {
 		v := bfF(f0)
 		v.Add(v, bf().Mul(bfF(d), dx))
 		// Go's erf/erfc: error below 1 ulp (FreeBSD msun); 2 ulp claimed here
-		e := 2*uF64*math.Abs(f0) + math.Abs(d)*a.E*1.01 + math.Abs(d)*absF(dx)*1e-10
-		if t.Fn == "erfc" && math.Abs(f0) < 1e-300 {
-			e = math.Inf(1) // subnormal range: no relative accuracy
-		}
-		return fin(v, e)
+		e := 2*uF64*math.Abs(f0) + math.Abs(d)*a.absTot()*1.01 + math.Abs(d)*absF(dx)*1e-10
+		return fin(v, 0, e)
 	}
 	return env.fail("unknown unary function %q", t.Fn)
 }
@@ -622,23 +678,59 @@ func (env *Env) binary(t *Node) V {
 		return nonfin(cNaN)
 	}
 	x, y := a.F, b.F
-	xa, ya := absF(x), absF(y)
 	switch t.Fn {
-	case "add":
-		return fin(bf().Add(x, y), a.E+b.E)
-	case "sub":
-		return fin(bf().Sub(x, y), a.E+b.E)
+	case "add", "sub":
+		var v *big.Float
+		if t.Fn == "add" {
+			v = bf().Add(x, y)
+		} else {
+			v = bf().Sub(x, y)
+		}
+		if a.Rel == 0 && a.Abs == 0 && b.Rel == 0 && b.Abs == 0 {
+			return fin(v, 0, 0) // rounding of the sum only
+		}
+		abs := a.Abs + b.Abs
+		if v.Sign() == 0 {
+			return V{F: v, Rel: 0, Abs: abs + a.Rel*absF(x) + b.Rel*absF(y), Cls: cFin}
+		}
+		rel := 0.0
+		if a.Rel != 0 {
+			rel += a.Rel * ratio(x, v)
+		}
+		if b.Rel != 0 {
+			rel += b.Rel * ratio(y, v)
+		}
+		return fin(v, rel, abs)
 	case "mul":
-		return fin(bf().Mul(x, y), xa*b.E+ya*a.E+a.E*b.E)
+		v := bf().Mul(x, y)
+		abs := 0.0
+		if a.Abs != 0 {
+			abs += a.Abs * absF(y) * (1 + b.Rel)
+		}
+		if b.Abs != 0 {
+			abs += b.Abs * absF(x) * (1 + a.Rel)
+		}
+		if a.Abs != 0 && b.Abs != 0 {
+			abs += a.Abs * b.Abs
+		}
+		if a.Rel == 0 && b.Rel == 0 && abs == 0 {
+			return fin(v, 0, 0)
+		}
+		return fin(v, a.Rel+b.Rel+a.Rel*b.Rel, abs)
 	case "div":
 		if y.Sign() == 0 {
 			return nonfin(cNaN)
 		}
 		v := bf().Quo(x, y)
-		if b.E >= ya {
-			return fin(v, math.Inf(1))
+		rb := b.relTot()
+		if rb >= 0.5 {
+			return fin(v, 0, math.Inf(1))
 		}
-		return fin(v, (a.E+absF(v)*b.E)/(ya-b.E))
+		abs := 0.0
+		if a.Abs != 0 {
+			abs = a.Abs / absF(y) / (1 - rb)
+		}
+		return fin(v, (a.Rel+rb)/(1-rb), abs)
 	case "pow":
 		if num, j, ok := dyadicExp(t.B); ok {
 			if x.Sign() < 0 && j > 0 {
@@ -646,10 +738,10 @@ func (env *Env) binary(t *Node) V {
 			}
 			if x.Sign() == 0 {
 				if num > 0 {
-					return fin(bf(), 0)
+					return exact(bf())
 				}
 				if num == 0 {
-					return fin(bfI(1), 0)
+					return exact(bfI(1))
 				}
 				return nonfin(cNaN)
 			}
@@ -665,14 +757,14 @@ func (env *Env) binary(t *Node) V {
 				return env.fail("power overflows the evaluator")
 			}
 			yf, _ := y.Float64()
-			e := 0.0
-			if a.E != 0 {
-				e = absF(v) * math.Abs(yf) * a.E / xa * 1.0000001
-				if a.E >= xa {
-					e = math.Inf(1)
-				}
+			ra := a.relTot()
+			if ra >= 0.5 {
+				return fin(v, 0, math.Inf(1))
 			}
-			return fin(v, e)
+			if ra == 0 && j == 0 && num >= 0 {
+				return fin(v, 0, 0)
+			}
+			return fin(v, math.Abs(yf)*ra/(1-ra)*1.0000001, 0)
 		}
 		// general exponent: exp(y log x)
 		if x.Sign() <= 0 {
@@ -685,12 +777,12 @@ func (env *Env) binary(t *Node) V {
 			return env.fail("power overflows the evaluator")
 		}
 		v := bigExp(p)
-		lxa := absF(lx)
-		if a.E >= xa {
-			return fin(v, math.Inf(1))
+		ra := a.relTot()
+		if ra >= 0.5 {
+			return fin(v, 0, math.Inf(1))
 		}
-		ep := lxa*b.E + ya*a.E/(xa-a.E)
-		return fin(v, absF(v)*ep*1.0000001)
+		ep := absF(lx)*b.absTot() + absF(y)*ra/(1-ra)
+		return fin(v, ep*1.0000001, 0)
 	}
 	return env.fail("unknown binary operation %q", t.Fn)
 }
